@@ -36,9 +36,34 @@ pub fn on_commit_built(w: &mut World, p: usize, _g: usize, id: u64, unused: &[Pr
     let sum = summary(unused);
     // every cached proposal that is invalid by construction (a template) must have been dropped, i.e. reported unused
     let refs = w.msgs[&id].refs.clone();
-    for r in refs {
+    // the legacy party (its devices do not support extension type 0xF001) and that extension exclude each other
+    let cmsg = w.msgs[&id].clone();
+    let (lg, lmember, lhas) = match w.legacy() {
+        Some(l) => (
+            Some(l),
+            w.groups[cmsg.g].members.get(&cmsg.epoch).map(|m| m.contains_key(&l)).unwrap_or(false),
+            w.ctx_has_f001(cmsg.g, cmsg.epoch),
+        ),
+        None => (None, false, false),
+    };
+    let gce_by_value = cmsg.spec.as_ref().map(|s| s.gce.is_some()).unwrap_or(false);
+    let legacy_may_leave = cmsg.spec.as_ref().map(|s| lg.map(|l| s.removes.contains(&l)).unwrap_or(false) || s.reinit.is_some()).unwrap_or(true)
+        || refs.iter().any(|r| match &w.msgs[r].pspec {
+            Some(PropSpec::Remove { q }) => Some(*q) == lg,
+            Some(PropSpec::SelfRemove) => Some(w.msgs[r].sender) == lg,
+            _ => false,
+        });
+    for r in refs.clone() {
         let pm = w.msgs[&r].clone();
-        if !matches!(pm.pspec, Some(PropSpec::Template { .. })) || pm.private {
+        let dynamic_invalid = match &pm.pspec {
+            Some(PropSpec::Add { q }) if Some(*q) == lg && !lmember => lhas || gce_by_value,
+            Some(PropSpec::Gce { .. }) => lmember && !lhas && !legacy_may_leave,
+            _ => false,
+        };
+        if dynamic_invalid {
+            w.stats.probe("unsupported-capabilities-by-reference");
+        }
+        if !(matches!(pm.pspec, Some(PropSpec::Template { .. })) || dynamic_invalid) || pm.private {
             continue;
         }
         let Some(l) = crate::c13::public_layout(&pm.bytes) else { continue };
@@ -381,7 +406,7 @@ pub fn do_forge(w: &mut World, s: usize, g: usize, template: u64, q: usize) -> V
     let victim = others.get(q % others.len().max(1)).copied();
     let mut r = crate::prng::Prng::new(crate::prng::mix(&[w.seed, w.step_no as u64, 0xf0f]));
     // proposals by value
-    let (props, name, rule_expected): (Vec<Vec<u8>>, &str, bool) = match template % 13 {
+    let (props, name, rule_expected): (Vec<Vec<u8>>, &str, bool) = match template % 14 {
         0 => {
             // sanity: one valid Add - must pass every rule and fail only at the (random) confirmation tag
             let banned = w.cfg.knob("banned").map(|_| w.parties.len() - 1);
@@ -389,6 +414,7 @@ pub fn do_forge(w: &mut World, s: usize, g: usize, template: u64, q: usize) -> V
                 matches!(w.mem_ref(*p, g).map(|m| m.status.clone()).unwrap_or(Status::Never), Status::Never)
                     && !w.parties[*p].crashed
                     && Some(*p) != banned
+                    && Some(*p) != w.legacy()
                     && !rec.roster.iter().any(|(_, id, _)| *id == w.parties[*p].name)
             });
             let Some(o) = outsider else { return Ok(false) };
@@ -428,12 +454,24 @@ pub fn do_forge(w: &mut World, s: usize, g: usize, template: u64, q: usize) -> V
                 matches!(w.mem_ref(*p, g).map(|m| m.status.clone()).unwrap_or(Status::Never), Status::Never)
                     && !w.parties[*p].crashed
                     && Some(*p) != banned
+                    && Some(*p) != w.legacy()
                     && !rec.roster.iter().any(|(_, id, _)| *id == w.parties[*p].name)
             });
             let Some(o) = outsider else { return Ok(false) };
             let at = mls_rs::time::MlsTime::from(w.clock.saturating_sub(365 * 24 * 3600 + 1));
             let Some(kp) = w.gen_key_package_at(o, at)? else { return Ok(false) };
             (vec![enc_add(&kp)], "add-expired-key-package", true)
+        }
+        13 => {
+            // new group-context extensions of a type the device of one member does not support
+            let ok = w
+                .legacy()
+                .map(|l| w.groups[g].members.get(&epoch).map(|m| m.contains_key(&l) && l != s).unwrap_or(false) && !w.ctx_has_f001(g, epoch))
+                .unwrap_or(false);
+            if !ok {
+                return Ok(false);
+            }
+            (vec![enc_gce(1)], "group-context-extension-unsupported-by-a-member", true)
         }
         12 => {
             // a ReInit next to a custom proposal of a type every member supports
